@@ -495,3 +495,79 @@ def snapshot(obj):
     if isinstance(obj, (list, tuple)):
         return [snapshot(v) for v in obj]
     return obj
+
+
+# ------------------------------------------------------------ isinstance stub
+import builtins as _builtins
+
+_NoneType = type(None)
+_TAGSETS = {bool: (BOOL,), int: (BOOL, INT), float: (FLOAT,), _NoneType: (NULL,),
+            object: (NULL, BOOL, INT, FLOAT)}
+
+
+def _tags_for(cls):
+    if cls in _TAGSETS:
+        return _TAGSETS[cls]
+    try:
+        import numbers
+        if cls in (numbers.Number, numbers.Complex, numbers.Real):
+            return (BOOL, INT, FLOAT)
+        if cls in (numbers.Integral, numbers.Rational):
+            return (BOOL, INT)
+    except ImportError:
+        pass
+    return ()
+
+
+def sym_isinstance(x, cls):
+    """Drop-in for builtins.isinstance inside nbdime's modules (installed by
+    harness/common.install_stubs): identical on ordinary objects; on a
+    SymScalar it asks the solver about the type tag (forking only when both
+    answers are feasible); SymInt is an int, SymBool a bool."""
+    tx = type(x)
+    if tx is SymScalar:
+        classes = cls if _builtins.isinstance(cls, tuple) else (cls,)
+        tags = set()
+        for c in classes:
+            tags.update(_tags_for(c))
+        if not tags:
+            return False
+        if len(tags) == 4:
+            return True
+        return SymBool(z3.Or([x.t == k for k in sorted(tags)]))   # lazy: forks only if its truth value is needed
+    if tx is SymInt:
+        classes = cls if _builtins.isinstance(cls, tuple) else (cls,)
+        return any(c in (int, object) or INT in _tags_for(c) and c is not bool for c in classes)
+    if tx is SymBool:
+        classes = cls if _builtins.isinstance(cls, tuple) else (cls,)
+        return any(c in (bool, int, object) or BOOL in _tags_for(c) for c in classes)
+    return _builtins.isinstance(x, cls)
+
+
+def _arg_key(a):
+    if isinstance(a, SymScalar):
+        return ("s", a.t.get_id(), a.v.get_id())
+    if isinstance(a, (SymInt, SymBool, SymToken)):
+        return ("e", a.e.get_id())
+    return None
+
+
+def summarized(fn):
+    """Wrap a pure boolean function of scalar arguments so that sx explores it
+    once per call and forks on its summary (Engine.summarize).  Calls with no
+    symbolic argument, and concrete-mode calls, go straight to fn."""
+    def wrapper(*args):
+        E = _E()
+        if E is None or E.mode != "sym":
+            return fn(*args)
+        keys = [_arg_key(a) for a in args]
+        if all(k is None for k in keys):
+            return fn(*args)
+        if any(k is None and isinstance(a, (list, dict)) for k, a in zip(keys, args)):
+            return fn(*args)
+        key = (id(fn),) + tuple(k if k is not None else ("c", repr(a)) for k, a in zip(keys, args))
+        return E.summarize(fn, args, key)
+    wrapper.__wrapped__ = fn
+    wrapper.__name__ = getattr(fn, "__name__", "summarized")
+    wrapper._sx_summarized = True
+    return wrapper
